@@ -796,7 +796,11 @@ func (g *Gen) GenNode(depth int, root bool) *Node {
 			n.Via = pick(g, []string{"merge", "extend", "omit", "pick", "merge"}, "viak")
 		}
 		if !g.Cfg.NoFuncTests {
-			for i, k := 0, g.intn(0, 3, "stt")-1; i < k; i++ {
+			k := g.intn(0, 3, "stt") - 1
+			if n.Via != "" && g.p(0.25, "manytests") {
+				k = g.intn(3, 7, "sttm") // derived schemas with several struct-level tests (slices that have grown a few times)
+			}
+			for i := 0; i < k; i++ {
 				ft := g.funcTest([]string{"hashEven", "pass", "fail", "pass"}, len(n.Tests))
 				if g.p(g.Cfg.PTestSat, "stsat") {
 					ft.Str = "pass"
@@ -807,6 +811,11 @@ func (g *Gen) GenNode(depth int, root bool) *Node {
 			}
 		}
 		g.genPosts(n, "stpost")
+		if n.Via != "" && g.Cfg.PPost > 0 && g.p(0.2, "manyposts") {
+			for want := g.intn(3, 6, "stpm"); len(n.Posts) < want; {
+				n.Posts = append(n.Posts, g.post())
+			}
+		}
 	case kind == KPtr:
 		n.Elem = g.GenNode(depth-1, false)
 		for n.Elem.Kind == KPtr && (n.Elem.Elem.Kind == KPtr || !g.p(0.5, "ptrptr")) {
